@@ -306,3 +306,37 @@ def nearest_neighbor_tcrdist(df: TableT(["CDR3A", "TRAV", "CDR3B", "TRBV"], min_
     # (the CDR3 column holds strings; nearest_neighbor's contract applies to the list made from it)
     raises(None)
     ensures(is_empty_result(result) == bag_is_empty(local("neighbors")), name="post[empty result exactly when no candidate pair]")
+    # non-empty case, term level (the TCRdist functions are opaque library operations): the rows (q, r, TCRdist) of the candidate
+    # pairs whose TCRdist -- V-gene table distance plus CDR3 distance, summed over the requested chains -- is at most max_tcrdist
+    ensures(implies(not is_empty_result(result),
+                    same_value(result, tcr_rows(np.array(local("neighbors")), tcrdist_of(df, chain, np.array(local("neighbors"))[:, :2]),
+                                                max_tcrdist))),
+            name="post[rows within max_tcrdist, valued by the summed TCRdist]")
+
+
+
+@predicate
+def table_lookup(t, rows, cols):
+    # element-wise value of the labelled table t at (row label, column label)
+    return t.values.flat[t.index.get_indexer(rows) * len(t.columns) + t.columns.get_indexer(cols)]
+
+
+@predicate
+def chain_distance(df, chain, edges):
+    # one chain: bundled V-gene table at (V of the first, V of the second TCR) + pwseqdist's TCRdist of the CDR3 pair with the
+    # documented parameters (CDR3 weight 3, gap penalty 12, trimming 3 / 2)
+    return (table_lookup(pd.read_csv(os.path.join(os.path.dirname(__file__), "data", f"vdists_{chain}.csv"), index_col=0),
+                         df[f"TR{chain[0].upper()}V"].iloc[edges[:, 0]], df[f"TR{chain[0].upper()}V"].iloc[edges[:, 1]])
+            + pwseqdist.apply_pairwise_sparse(metric=pwseqdist.metrics.nb_vector_tcrdist, seqs=np.asarray(df[f"CDR3{chain[0].upper()}"]),
+                                              pairs=edges, use_numba=True, fixed_gappos=False, ntrim=3, ctrim=2, dist_weight=3,
+                                              gap_penalty=12))
+
+
+@predicate
+def tcrdist_of(df, chain, edges):
+    return (chain_distance(df, "beta", edges) + chain_distance(df, "alpha", edges)) if chain == "both" else chain_distance(df, chain, edges)
+
+
+@predicate
+def tcr_rows(arr, dist, max_tcrdist):
+    return set_column(arr, 2, dist)[set_column(arr, 2, dist)[:, 2] <= max_tcrdist]
